@@ -36,7 +36,7 @@ def main(argv):
             import json
             data = json.load(open(replay))
             if 'library_call' in data:          # a call that did not return: re-run it under the watchdog
-                ok = framework.replay_call(data['library_call'])
+                ok = framework.replay_call(data['library_call'], fail_on_exception=data.get('library_exception_type'))
                 print(json.dumps({'returned_within_limit': ok}))
                 if not ok:
                     print(f'VIOLATION property={pid} replay={replay}')
@@ -59,6 +59,18 @@ def main(argv):
                 chk.violation('hang0', {'what': 'a call into the library did not return: ' + str(e),
                                         'library_call': getattr(e, 'call', None)}, concrete=True)
                 return chk.finish(rule='(sweep aborted: a call into the library did not return)', evaluations=1, distinct=1)
+            except Exception as e:      # noqa: BLE001
+                # an exception raised INSIDE a call into the library that the sweep did not anticipate (its oracles catch the
+                # exceptions the property allows): the call is the failing input.  Anything else is a harness crash (exit 2).
+                call = getattr(e, '_soupverif_call', None)
+                if call is None:
+                    raise
+                traceback.print_exc()
+                chk.violation('exc0', {'what': f'a call into the library raised {type(e).__name__}: {e}'[:300] +
+                                               ' (not anticipated by the sweep: the property prescribes a result for this call)',
+                                       'library_exception_type': type(e).__name__,
+                                       'library_call': framework.describe_call(*call)}, concrete=True)
+                return chk.finish(rule='(sweep aborted: a call into the library raised)', evaluations=1, distinct=1)
         rc = run_one(Check(pid, tier, seed))
         first = time.time() - t0
         k = 0
